@@ -5,6 +5,7 @@
   number of images / cameras / points / observations / match rows, any image names.
 -/
 import Kapture.Lemmas.C14
+import Kapture.Lemmas.C14Gen
 
 set_option linter.unusedSectionVars false
 set_option linter.unusedVariables false
@@ -52,6 +53,127 @@ end pose
 
 /-! ## intrinsics -/
 section intr
+section gen
+variable {K : Type} [Add K] [Div K] [OfNat K 0] [OfNat K 2]
+
+/-- the hand-written intrinsics export of Model/C14.lean IS what the GENERATED branch table says (Gen/MvgIntrinsics.lean, translated
+  on every run from `_export_openmvg_intrinsics` — camera types per branch, OpenMVG model, getter, the `faked_params` expressions —
+  and from the `_get_intrinsic_*` getters — distortion indexes, value0 nesting): whenever the model exports a camera, reading
+  the generated table gives the same intrinsic, for every camera type, parameter list and both layouts -/
+theorem generated_intrinsics_is_the_model (v2 : Bool) (c : Cam K) (i : Intrinsic K) (h : exportCam v2 c = some i) :
+    genExportCam v2 c = some i := by
+  obtain ⟨t, w, hh, ps⟩ := c
+  unfold exportCam at h
+  cases t <;> simp only at h
+  · match ps, h with
+    | f :: cx :: cy :: rest, h =>
+      simp only [Option.some.injEq] at h; subst h
+      simp [genExportCam, Gen.MvgIntrinsics.branches, Gen.MvgIntrinsics.getters, camTypeName, mvgModelOf]
+  · match ps, h with
+    | fx :: fy :: cx :: cy :: rest, h =>
+      simp only [Option.some.injEq] at h; subst h
+      simp [genExportCam, Gen.MvgIntrinsics.branches, Gen.MvgIntrinsics.getters, camTypeName, mvgModelOf]
+  · match ps, h with
+    | f :: cx :: cy :: k :: rest, h =>
+      simp only [Option.some.injEq] at h; subst h
+      simp [genExportCam, Gen.MvgIntrinsics.branches, Gen.MvgIntrinsics.getters, camTypeName, mvgModelOf]
+  · match ps, h with
+    | f :: cx :: cy :: k1 :: k2 :: rest, h =>
+      simp only [Option.some.injEq] at h; subst h
+      simp [genExportCam, Gen.MvgIntrinsics.branches, Gen.MvgIntrinsics.getters, camTypeName, mvgModelOf]
+  · match ps, h with
+    | fx :: fy :: cx :: cy :: k1 :: k2 :: p1 :: p2 :: [], h =>
+      simp only [Option.some.injEq] at h; subst h
+      cases v2 <;> simp [genExportCam, Gen.MvgIntrinsics.branches, Gen.MvgIntrinsics.getters, camTypeName, mvgModelOf, layout]
+    | fx :: fy :: cx :: cy :: k1 :: k2 :: p1 :: p2 :: k3 :: rest, h =>
+      simp only [Option.some.injEq] at h; subst h
+      cases v2 <;> simp [genExportCam, Gen.MvgIntrinsics.branches, Gen.MvgIntrinsics.getters, camTypeName, mvgModelOf, layout]
+  · match ps, h with
+    | fx :: fy :: cx :: cy :: k1 :: k2 :: p1 :: p2 :: [], h =>
+      simp only [Option.some.injEq] at h; subst h
+      cases v2 <;> simp [genExportCam, Gen.MvgIntrinsics.branches, Gen.MvgIntrinsics.getters, camTypeName, mvgModelOf, layout]
+    | fx :: fy :: cx :: cy :: k1 :: k2 :: p1 :: p2 :: k3 :: rest, h =>
+      simp only [Option.some.injEq] at h; subst h
+      cases v2 <;> simp [genExportCam, Gen.MvgIntrinsics.branches, Gen.MvgIntrinsics.getters, camTypeName, mvgModelOf, layout]
+  · match ps, h with
+    | fx :: fy :: cx :: cy :: rest, h =>
+      simp only [Option.some.injEq] at h; subst h
+      cases v2 <;> simp [genExportCam, Gen.MvgIntrinsics.branches, Gen.MvgIntrinsics.getters, camTypeName, mvgModelOf, layout]
+  · match ps, h with
+    | f :: cx :: cy :: rest, h =>
+      simp only [Option.some.injEq] at h; subst h
+      cases v2 <;> simp [genExportCam, Gen.MvgIntrinsics.branches, Gen.MvgIntrinsics.getters, camTypeName, mvgModelOf, layout]
+  · match ps, h with
+    | f :: cx :: cy :: rest, h =>
+      simp only [Option.some.injEq] at h; subst h
+      cases v2 <;> simp [genExportCam, Gen.MvgIntrinsics.branches, Gen.MvgIntrinsics.getters, camTypeName, mvgModelOf, layout]
+
+/-- in every generated `faked_params` list the first two entries are camera_params[0] and camera_params[1] (width, height), and the
+  only camera type whose branch the translator does not render is UNKNOWN_CAMERA (outside the model) -/
+theorem generated_intrinsics_width_height :
+    (∀ b ∈ Gen.MvgIntrinsics.branches 12 (fun i => (i : Int)), ∀ l, b.2.2.2 = some l → l.take 2 = [0, 1]) ∧
+    Gen.MvgIntrinsics.untranslated = ["UNKNOWN_CAMERA"] := by
+  decide
+
+end gen
+
+section geni
+variable {K : Type} [OfNat K 0] [DecidableEq K]
+
+/-- the same for the import side: whenever the model imports an intrinsic, reading the GENERATED table of `_import_openmvg_cameras`
+  (OpenMVG model, the guard on disto_t2[2], kapture camera type, value0-or-data versus data-only reads, the parameter list of
+  every kapture.Camera(...) call) gives the same camera -/
+theorem generated_import_is_the_model (i : Intrinsic K) (c : Cam K) (h : importCam i = some c) : genImportCam i = some c := by
+  obtain ⟨m, d⟩ := i
+  unfold importCam at h
+  cases m <;> simp only at h
+  · -- pinhole
+    match d, h with
+    | IntrData.flat cm ds, h =>
+      simp only [Option.some.injEq] at h; subst h
+      simp [genImportCam, Gen.MvgIntrinsics.imports, mvgModelName, camTypeOf, unnest]
+  · match d, h with
+    | IntrData.flat cm (k :: ds), h =>
+      simp only [Option.some.injEq] at h; subst h
+      simp [genImportCam, Gen.MvgIntrinsics.imports, mvgModelName, camTypeOf, unnest]
+  · match d, h with
+    | IntrData.flat cm (k1 :: k2 :: ds), h =>
+      simp only [Option.some.injEq] at h; subst h
+      simp [genImportCam, Gen.MvgIntrinsics.imports, mvgModelName, camTypeOf, unnest]
+  · -- pinhole_brown_t2: both layouts, k3 zero or not
+    cases d with
+    | flat cm ds =>
+      match ds, h with
+      | k1 :: k2 :: k3 :: t1 :: t2 :: rest, h =>
+        simp only [unnest] at h
+        by_cases hk : k3 = 0
+        · simp only [hk, ne_eq, not_true_eq_false, if_false, Option.some.injEq] at h; subst h
+          simp [genImportCam, Gen.MvgIntrinsics.imports, mvgModelName, camTypeOf, unnest, hk]
+        · simp only [ne_eq, hk, not_false_eq_true, if_true, Option.some.injEq] at h; subst h
+          simp [genImportCam, Gen.MvgIntrinsics.imports, mvgModelName, camTypeOf, unnest, hk]
+    | nested cm ds =>
+      match ds, h with
+      | k1 :: k2 :: k3 :: t1 :: t2 :: rest, h =>
+        simp only [unnest] at h
+        by_cases hk : k3 = 0
+        · simp only [hk, ne_eq, not_true_eq_false, if_false, Option.some.injEq] at h; subst h
+          simp [genImportCam, Gen.MvgIntrinsics.imports, mvgModelName, camTypeOf, unnest, hk]
+        · simp only [ne_eq, hk, not_false_eq_true, if_true, Option.some.injEq] at h; subst h
+          simp [genImportCam, Gen.MvgIntrinsics.imports, mvgModelName, camTypeOf, unnest, hk]
+  · -- fisheye
+    simp only [Option.some.injEq] at h; subst h
+    cases d <;> simp [genImportCam, Gen.MvgIntrinsics.imports, mvgModelName, camTypeOf, unnest]
+
+/-- every generated parameter list starts with width and height -/
+theorem generated_import_width_height :
+    ∀ b ∈ Gen.MvgIntrinsics.imports (⟨0, 0, 0⟩ : Gen.MvgIntrinsics.ImpCommon Int) [], ∃ rest,
+      b.2.2.2.2 = Gen.MvgIntrinsics.ImpEntry.width :: Gen.MvgIntrinsics.ImpEntry.height :: rest := by
+  intro b hb
+  simp only [Gen.MvgIntrinsics.imports, List.mem_cons, List.not_mem_nil, or_false] at hb
+  rcases hb with rfl | rfl | rfl | rfl | rfl | rfl <;> exact ⟨_, rfl⟩
+
+end geni
+
 variable {K : Type} [Field K] [DecidableEq K]
 
 /-- export then import of a representable camera gives `canon` of it, for both intrinsic layouts -/
